@@ -1205,14 +1205,14 @@ theorem rejected_stays_literal (dec : List Char → List Char) (hdec : DecOk dec
 section ParserExamples
 
 /-- decidable equality of parser results, for the `decide`d examples only -/
-def resultDecEq : (a b : Except Panic (Option Frag)) → Decidable (a = b)
+def resultDecEq {α : Type} [DecidableEq α] : (a b : Except Panic α) → Decidable (a = b)
   | .ok x, .ok y => if h : x = y then isTrue (by rw [h]) else isFalse (fun e => h (by cases e; rfl))
   | .error x, .error y =>
     if h : x = y then isTrue (by rw [h]) else isFalse (fun e => h (by cases e; rfl))
   | .ok _, .error _ => isFalse (fun e => by cases e)
   | .error _, .ok _ => isFalse (fun e => by cases e)
 
-local instance : DecidableEq (Except Panic (Option Frag)) := resultDecEq
+local instance {α : Type} [DecidableEq α] : DecidableEq (Except Panic α) := resultDecEq
 
 /-- `<a b>) x` from 0: angle form, raw `a b`, `pos` behind the `>` -/
 example : parseLinkDestination ['<', 'a', ' ', 'b', '>', ')', ' ', 'x'] 0 8 =
@@ -1271,6 +1271,31 @@ example : parseLinkTitle ['"', 'a', '\n', 'b', '"'] 0 5 = .ok (some ⟨5, 1, ['a
 example : parseLinkTitle ['"', 'a', '\\', '\n', 'b', '"'] 0 6 =
     .ok (some ⟨6, 0, ['a', '\\', '\n', 'b']⟩) := by decide
 example : List.count '\n' ['a', '\\', '\n', 'b'] = 1 := by decide
+
+/-- `DecOk` is satisfiable (the identity decoder); `unescape_all` satisfies it because neither a
+    title opener nor the empty text contains a backslash or an ampersand -/
+example : DecOk id := ⟨rfl, fun _ _ r _ => ⟨r, rfl⟩⟩
+
+/-- `[a](javascript:x)`, `[a](<JAVASCRIPT:x>)`, `[a](data:text/html,x "t")`: the inline form fails -/
+example : parseInlineTail id ['(', 'j', 'a', 'v', 'a', 's', 'c', 'r', 'i', 'p', 't', ':', 'x', ')'] 0 14 =
+    .ok none := by decide +kernel
+example : parseInlineTail id ['(', '<', 'J', 'A', 'V', 'A', 'S', 'C', 'R', 'I', 'P', 'T', ':', 'x', '>', ')'] 0 16 =
+    .ok none := by decide +kernel
+example : parseInlineTail id
+    ['(', 'd', 'a', 't', 'a', ':', 't', 'e', 'x', 't', '/', 'h', 't', 'm', 'l', ',', 'x', ' ', '"', 't', '"', ')'] 0 22 =
+    .ok none := by decide +kernel
+
+/-- `[a]( /u "t" )`: link to `/u` with title `t`, ends behind the `)` (so `rejected_stays_literal`
+    is not vacuous) -/
+example : parseInlineTail id ['(', ' ', '/', 'u', ' ', '"', 't', '"', ' ', ')'] 0 10 =
+    .ok (some ⟨some [47, 117], some ['t'], 10⟩) := by decide +kernel
+
+/-- `[a]()`: empty destination, accepted -/
+example : parseInlineTail id ['(', ')'] 0 2 = .ok (some ⟨some [], none, 2⟩) := by decide +kernel
+
+/-- quirk: a title directly behind a `<…>` destination, without a blank, is accepted -/
+example : parseInlineTail id ['(', '<', 'b', '>', '"', 't', '"', ')'] 0 8 =
+    .ok (some ⟨some [98], some ['t'], 8⟩) := by decide +kernel
 
 end ParserExamples
 
